@@ -102,10 +102,14 @@ type Op struct {
 type Config struct {
 	Warm    bool   `json:"warm"`
 	Prepare bool   `json:"prepare"`
+	RO      bool   `json:"ro"` // read-only programs on pre-populated rows, 16 pooled connections
 	Progs   [][]Op `json:"progs"`
 }
 
-var opKinds = []string{"create_user", "find_users", "preload", "preload_all", "joins", "update", "delete_order", "tx", "assoc_append", "assoc_count",
+var roKinds = []string{"find_users", "first_user", "preload", "preload_all", "joins", "order_preload_user", "count", "company_users", "notes", "assoc_count",
+	"solo_find", "bad_column", "scan_rows", "pluck", "find_map"}
+
+var opKinds = []string{"bad_column", "scan_rows", "pluck", "find_map", "create_user", "find_users", "preload", "preload_all", "joins", "update", "delete_order", "tx", "assoc_append", "assoc_count",
 	"solo_create", "solo_find", "order_preload_user", "count", "company_users", "notes", "first_user", "save_user", "item_create"}
 
 func id(g, n int) int64 { return int64(g*100000 + n) }
@@ -136,6 +140,41 @@ func run(db *gorm.DB, g int, o Op, st *gstate) string {
 		var us []CUser
 		r := db.Where("g = ?", g).Order("id").Find(&us)
 		return fmt.Sprintf("find_users %s %s", errTok(r.Error), userToks(us))
+	case "bad_column":
+		// a statement the database rejects: every goroutine must get the error, as when run alone
+		var us []CUser
+		r := db.Where("no_such_column = ?", g).Find(&us)
+		return fmt.Sprintf("bad_column %s %d", errTok(r.Error), len(us))
+	case "scan_rows":
+		rows, err := db.Model(&CUser{}).Where("g = ?", g).Order("id").Rows()
+		if err != nil {
+			return "scan_rows " + errTok(err)
+		}
+		var toks []string
+		for rows.Next() {
+			var u CUser
+			if err := db.ScanRows(rows, &u); err != nil {
+				toks = append(toks, errTok(err))
+				break
+			}
+			toks = append(toks, fmt.Sprintf("%d:%s", u.ID, u.Name))
+		}
+		rows.Close()
+		return fmt.Sprintf("scan_rows %v", toks)
+	case "pluck":
+		var names []string
+		var ids []int64
+		e1 := db.Model(&CUser{}).Where("g = ?", g).Order("id").Pluck("name", &names).Error
+		e2 := db.Model(&COrder{}).Where("g = ?", g).Order("id").Pluck("id", &ids).Error
+		return fmt.Sprintf("pluck %s %s %v %v", errTok(e1), errTok(e2), names, ids)
+	case "find_map":
+		var ms []map[string]interface{}
+		r := db.Model(&CUser{}).Select("id", "name", "g").Where("g = ?", g).Order("id").Find(&ms)
+		toks := []string{}
+		for _, m := range ms {
+			toks = append(toks, fmt.Sprintf("%v:%v:%v", m["id"], m["name"], m["g"]))
+		}
+		return fmt.Sprintf("find_map %s %v", errTok(r.Error), toks)
 	case "first_user":
 		var u CUser
 		r := db.Where("g = ?", g).First(&u)
@@ -289,6 +328,20 @@ func newWorld(cfg Config) (*world, error) {
 	if err := setup.AutoMigrate(allModels...); err != nil {
 		return nil, err
 	}
+	if cfg.RO {
+		// rows for every goroutine, written through the setup handle; readers then share 16 connections
+		for g := 1; g <= len(cfg.Progs); g++ {
+			st := &gstate{}
+			for k := 0; k < 3; k++ {
+				if tok := run(setup, g, Op{K: "create_user"}, st); !strings.Contains(tok, "create_user nil") {
+					return nil, fmt.Errorf("setup: %s", tok)
+				}
+			}
+			run(setup, g, Op{K: "item_create", A: g}, st)
+			run(setup, g, Op{K: "solo_create", A: g}, st)
+		}
+		sqldb.SetMaxOpenConns(16)
+	}
 	db, err := hx.OpenOn(sqldb, &gorm.Config{PrepareStmt: cfg.Prepare})
 	if err != nil {
 		return nil, err
@@ -407,14 +460,26 @@ func Execute(caseNo int, cfg Config) (hx.M, error) {
 	for _, p := range cfg.Progs {
 		nops += len(p)
 	}
-	return hx.M{"ev": "Conc", "case": caseNo, "warm": cfg.Warm, "prepare": cfg.Prepare, "g": n, "nops": nops, "hung": hung, "diffs": diffs, "rows_equal": rowsEqual, "sample": ser[0], "stacks": stacks}, nil
+	return hx.M{"ev": "Conc", "case": caseNo, "warm": cfg.Warm, "prepare": cfg.Prepare, "ro": cfg.RO, "g": n, "nops": nops, "hung": hung, "diffs": diffs, "rows_equal": rowsEqual, "sample": ser[0], "stacks": stacks}, nil
 }
 
 func randConfig(r *rand.Rand, maxG int) Config {
-	cfg := Config{Warm: r.Intn(3) == 0, Prepare: r.Intn(2) == 0}
+	cfg := Config{Warm: r.Intn(3) == 0, Prepare: r.Intn(2) == 0, RO: r.Intn(3) == 0}
 	n := 2 + r.Intn(maxG-1)
+	// sometimes every goroutine starts with the same statement, one the database rejects
+	sameFirst := r.Intn(4) == 0
 	for g := 0; g < n; g++ {
 		var p []Op
+		if sameFirst {
+			p = append(p, Op{K: "bad_column"})
+		}
+		if cfg.RO {
+			for k := 0; k < 4+r.Intn(8); k++ {
+				p = append(p, Op{K: roKinds[r.Intn(len(roKinds))], A: r.Intn(8)})
+			}
+			cfg.Progs = append(cfg.Progs, p)
+			continue
+		}
 		// different goroutines start with different models, so that first uses collide
 		first := []string{"create_user", "order_preload_user", "company_users", "solo_create", "preload_all", "joins", "notes", "item_create", "count"}[r.Intn(9)]
 		p = append(p, Op{K: first, A: r.Intn(8)})
